@@ -245,4 +245,80 @@ def refL (tr sp pa : Option Nat) : List Tree → List Rec
   | x :: xs => ref tr sp pa x ++ (if x.panics then [] else refL tr sp pa xs)
 end
 
+/-! ### How the runtime holds its `Rng` (core/src/rng.rs:35-160, core/src/runtime.rs:458-470)
+
+  `&T`, `Option<T>`, `Box<T>`, `Arc<T>`, `AssertInternal<T>` and `dyn ErasedRng (+ Send + Sync)` forward `fill`,
+  `gen_u64` and `gen_u128` to the rng they hold — one call each; `Option::None` answers `None` to everything. -/
+
+inductive RngHolder where
+  | direct | ref | some_ | none_ | box | arc | assertInternal | erased
+  deriving Repr, DecidableEq
+
+/-- one reading drawn through the holder -/
+def RngHolder.read (h : RngHolder) (r : Option Nat) : Option Nat :=
+  match h with
+  | .none_ => none
+  | _ => r
+
+mutual
+/-- the tree as it runs when every rng reading is drawn through the holder -/
+def Tree.hold (h : RngHolder) : Tree → Tree
+  | .span id en rt rs user ch => .span id en (h.read rt) (h.read rs) user (holdL h ch)
+  | .group t ch => .group t (holdL h ch)
+  | .catch_ ch => .catch_ (holdL h ch)
+  | .event eid own => .event eid own
+  | .cur cid => .cur cid
+  | .panic => .panic
+def holdL (h : RngHolder) : List Tree → List Tree
+  | [] => []
+  | x :: xs => x.hold h :: holdL h xs
+end
+
+/-! ### The class of cases on which `emit_traceparent::TraceparentCtxt<ThreadLocalCtxt>` shows the same ids as the
+    plain context (traceparent/src/lib.rs:789-970): every span enabled (a rejected span opens an UNSAMPLED
+    traceparent, which hides all ids below it — C18's subject), every rng reading a valid id (a span without a
+    span id, or a root without a trace id, is not a traceparent), span ids pairwise distinct and distinct from the
+    incoming one (`incoming_traceparent` ignores props whose span id equals the active one), no user ctxt props
+    (`pull` takes the FIRST `span_id`), and incoming props that either carry no usable span id (then they pass
+    through to the wrapped context untouched) or form a whole traceparent: usable trace id, no `span_parent`. -/
+
+def validId (bits : Nat) (r : Option Nat) : Bool :=
+  match r with
+  | some n => decide (0 < n) && decide (n < 2 ^ bits)
+  | none => false
+
+mutual
+/-- the span-id readings of the tree, if every span is in the class -/
+def tpSpans : Tree → Option (List Nat)
+  | .span _ en rt rs user ch =>
+    if en && validId 128 rt && validId 64 rs && user.isEmpty then
+      match tpSpansL ch with
+      | some ids => some (rs.toList ++ ids)
+      | none => none
+    else none
+  | .group _ ch => tpSpansL ch
+  | .catch_ ch => tpSpansL ch
+  | _ => some []
+def tpSpansL : List Tree → Option (List Nat)
+  | [] => some []
+  | x :: xs =>
+    match tpSpans x, tpSpansL xs with
+    | some a, some b => some (a ++ b)
+    | _, _ => none
+end
+
+def allDistinct : List Nat → Bool
+  | [] => true
+  | x :: xs => !xs.contains x && allDistinct xs
+
+def tpClass (incoming : List (String × IdVal)) (ts : List Tree) : Bool :=
+  match tpSpansL ts with
+  | none => false
+  | some ids =>
+    let incSpan := (get incoming "span_id").bind castSpan
+    allDistinct (incSpan.toList ++ ids) &&
+    (match incSpan with
+     | none => true
+     | some _ => ((get incoming "trace_id").bind castTrace).isSome && (get incoming "span_parent").isNone)
+
 end EmitModel.Span
